@@ -67,6 +67,14 @@ SCENARIOS = {
         'prefix': ['x0'],
         'alphabet': ['x1', 'x2', 'dA', 'dA', 'n0', 't', 't', 'c0'],
     },
+    'S7': {  # one Data satisfying whole nodes at three depths; partial satisfaction of the chain
+        'interests': [{'name': '/a', 'cbp': True, 'lifetime': 10}, {'name': '/a/b', 'cbp': True, 'lifetime': 10},
+                      {'name': '/a/b/c', 'cbp': False, 'lifetime': 20}],
+        'packets': {'dC': {'data': '/a/b/c'}, 'dB': {'data': '/a/b'}, 'nB': {'nack': '/a/b', 'reason': 150}},
+        'prefix': ['x0', 'x1', 'x2'],
+        'alphabet': ['dC', 'dB', 'nB', 't', 't', 'c1'],
+        'phase2': True,
+    },
     'S5': {  # duplicates and late packets after completion / after cancel
         'interests': [{'name': '/a', 'cbp': False, 'lifetime': 10}, {'name': '/b', 'cbp': False, 'lifetime': 10}],
         'packets': {'dA': {'data': '/a'}, 'n0': {'nack': '/a', 'reason': 150}, 'dB': {'data': '/b'}},
@@ -76,8 +84,8 @@ SCENARIOS = {
     },
 }
 
-LEN = {'quick': {'S1': 5, 'S2': 5, 'S3': 5, 'S3b': 5, 'S4': 5, 'S5': 5},
-       'thorough': {'S1': 6, 'S2': 6, 'S3': 6, 'S3b': 6, 'S4': 6, 'S5': 6}}
+LEN = {'quick': {'S1': 5, 'S2': 5, 'S3': 5, 'S3b': 5, 'S4': 5, 'S5': 5, 'S7': 5},
+       'thorough': {'S1': 6, 'S2': 6, 'S3': 6, 'S3b': 6, 'S4': 6, 'S5': 6, 'S7': 6}}
 DEV = {'quick': 1, 'thorough': 2}
 
 
